@@ -290,6 +290,21 @@ example : maxSafeSeqs exC "source" "sink" [("c", "d"), ("b", "sink")] =
     .ok [[("source", "a"), ("a", "b"), ("b", "c"), ("c", "d"), ("d", "sink")],
          [("source", "a"), ("a", "b"), ("b", "sink")]] := by decide
 
+/-- a digraph with a cycle `x ⇄ y` that nothing enters (not reachable from the source) leading into the route
+`s → a → t`: since fix 4057fb6 its edges are skipped (before, `find_idom` raised `IndexError` and the constructor of every
+cyclic model crashed on such an input under the default options) -/
+def exU : Graph :=
+  { nodes := ["s", "a", "t", "x", "y", "source", "sink"],
+    edges := [("s", "a"), ("a", "t"), ("x", "y"), ("y", "x"), ("x", "a"), ("source", "s"), ("t", "sink")] }
+
+set_option maxRecDepth 100000 in
+example : onSomeWalk exU "source" "sink" = .ok [("s", "a"), ("a", "t"), ("source", "s"), ("t", "sink")] := by decide
+set_option maxRecDepth 100000 in
+example : maxSafeSeqs exU "source" "sink" exU.edges =
+    .ok [[("source", "s"), ("s", "a"), ("a", "t"), ("t", "sink")]] := by decide +kernel
+set_option maxRecDepth 100000 in
+example : maxSafeSeqs exU "source" "sink" [("x", "y")] = .ok [] := by decide +kernel
+
 /-- **T6 is not vacuous**: the digraph `exP` (`FP/Proofs/C06IncompatExample.lean`) has the cycle `a ⇄ b`, the two
 parallel edges `a→c`, `b→c` between the components `{a,b}` and `{c}` and a second branch through `d`. With the SCC
 numbering and the antichain of the real run all hypotheses of `incompatible_sound` hold, three sequences are
